@@ -444,6 +444,38 @@ async def _scenario(template, order, pre):
     return await asyncio.wait_for(task, timeout=10)
 
 
+async def _scenario_dependent(template, reverse):
+    """every awaitable is a coroutine that can only finish once the next one (in written order; the previous one when `reverse`) has run: all
+    of them have to be started before any can be waited for to the end"""
+    from pyg_base import waiter
+    k = n_awaitables(template)
+    ev = [asyncio.Event() for _ in range(k)]
+
+    async def co(i):
+        j = i - 1 if reverse else i + 1
+        if 0 <= j < k:
+            await ev[j].wait()
+        ev[i].set()
+        return ('r', i)
+    struct = build(template, lambda s: co(s[1]) if is_spec(s) else s)
+    return await asyncio.wait_for(waiter(struct), timeout=3)
+
+
+def check_waiter_dependent(c, template, reverse):
+    call = dict(kind='waiter_dependent', template=template, reverse=reverse)
+    if not _LOOP:
+        _LOOP.append(asyncio.new_event_loop())
+    exp = build(template, lambda s: ('r', s[1]) if is_spec(s) else s)
+    txt = 'waiter(%r) where every coroutine waits for the %s one to have run' % (template, 'previous' if reverse else 'next')
+    try:
+        got = _LOOP[0].run_until_complete(_scenario_dependent(template, reverse))
+    except asyncio.TimeoutError:
+        return c.check(False, 'C19:waiter:hangs:awaitables-not-started-together', '%s did not finish: the awaitables are waited for one after another' % txt, call)
+    except Exception as e:      # noqa
+        return c.check(False, 'C19:waiter:raises', '%s raised %r' % (txt, e), call)
+    return c.check(strict_same(got, exp), 'C19:waiter:value', '%s = %r, expected %r' % (txt, got, exp), call)
+
+
 _LOOP = []
 
 
@@ -523,7 +555,7 @@ def run(tier, seed):
                   'passed positionally and by keyword; dict first arguments (2-3 keys, children leaves / lists / nested dicts, plain dict or pyg Dict) with dict companions over the '
                   'same key set in EVERY pair of insertion orders, companion values tied to the key, positional and by keyword, through f(x,y), f(x,y,z), replace, split, also one level '
                   'down inside list / tuple / dict; zipper/lens: every tuple of <= %d values from 13 (scalars, strings, sequences of length 0-3, ranges); as_list/as_tuple: 27 values x none flag; '
-                  'waiter: %ssmall structure (<= %d nodes) with all / alternate leaves awaitable, flat containers of k awaitables and seeded deeper ones, <= %d awaitables (bare futures and coroutines), resolved by a '
+                  'waiter: %ssmall structure (<= %d nodes) with all / alternate leaves awaitable, flat containers of k awaitables and seeded deeper ones, <= %d awaitables (bare futures and coroutines; also coroutines each of which waits for its written neighbour to have run, so that all have to be started together), resolved by a '
                   'scripted scheduler in EVERY completion order, also with a prefix completed before the call. Non-trivial: a structure with at least one leaf (lifting), at least two values '
                   '(zipper), at least two awaitables (waiter); distinct by input' % (4 if quick else 5, '250 seeded ones with 5 nodes, ' if quick else '', 60 if quick else 1500, 3 if quick else 4, 'a seeded subset of the ' if quick else 'every ', 5, kmax),
                   exhaustive=False, scope='structures <= %d nodes x 7 companion kinds x positional/keyword; zipper tuples <= %d over 13 values; waiter <= %d awaitables x all orders' % (4 if quick else 5, 3 if quick else 4, kmax))
@@ -558,6 +590,10 @@ def run(tier, seed):
             for pre in pres:
                 check_waiter(c, t, order, pre)
                 c.case(('waiter', repr(t), order, pre), nontrivial=k >= 2, sample=dict(template=t, order=list(order)) if order[:1] == (2,) else None)
+        if k >= 2:
+            for reverse in (False, True):           # coroutines that depend on one another: all must be started together, whatever the container
+                check_waiter_dependent(c, t, reverse)
+                c.case(('waiter_dependent', repr(t), reverse), nontrivial=True)
     if _LOOP:
         _LOOP.pop().close()
     return c.result()
@@ -573,6 +609,8 @@ def replay(call):
         check_zipper(c, call['idx'])
     elif kind == 'as_list':
         check_as_list(c, call['i'], call['none'])
+    elif kind == 'waiter_dependent':
+        check_waiter_dependent(c, call['template'], call['reverse'])
     elif kind == 'waiter':
         check_waiter(c, call['template'], call['order'], call.get('pre', 0))
         if _LOOP:
